@@ -6,6 +6,7 @@
 size_t gh_ci;              /* ghost child index (copy_anode) */
 size_t gh_oi;              /* ghost index into a rule's order array (rule_new_stop) */
 size_t gh_si;              /* ghost index into the non-start part of the situation array (set_new_add_initial_sit) */
+size_t gh_dn;              /* number of distances of the set whose hash is computed (setup_set_dists_hash) */
 size_t gh_vk;              /* ghost index into the terminal code translation vector */
 int gh_err_code;           /* code of the error exit taken */
 int gh_rt_calls;           /* number of read_token calls so far */
